@@ -13,7 +13,7 @@ from lib.coqterm import cbool, cN, clist, cnat, copt
 
 ID = "C40"
 QUICK_N = 2000
-THOROUGH_N = 30000
+THOROUGH_N = 16000
 SHARD = 300
 RULE = ("flow type uniform over 11 kinds (http with/without response, with error, with websocket, with EMPTY-but-present "
         "trailers and header-less response, with non-empty trailers, tcp, udp, dns with/without response, http built by "
